@@ -343,6 +343,11 @@ def spec_check(fn, rule, inst, expr, spec, roles=None, opaque=(), at=None, node=
     spec_nf = sym.norm(spec, env=env)
     allowed = set(fn.params) | set(opaque) | module_level_names(fn.mod) | set(dir(builtins)) | {'inf', 'pi', 'self'}
     allowed |= {v for v in vars_of(spec_nf)}
+    phis = {v[:-4] for v in vars_of(code_nf) if v.endswith('#phi')}
+    pphi = sorted(p for p in phis if p in fn.params)
+    if pphi:
+        return fn.ob(rule, inst, False, node if node is not None else expr,
+                     detail='argument %s is replaced on some path before it is used here' % ', '.join(pphi), key=inst)
     loose = {v for v in vars_of(code_nf) if v not in allowed and '.' not in v}
     if loose:
         raise AnalysisError('%s %s: cannot resolve local name(s) %s in `%s` (unrecognised idiom)'
